@@ -302,7 +302,7 @@ func (s *UtxoStore) VerifWF() bool { return s != nil && s.bucketMeta != nil }
 //@   modifies bmap(ns)
 //@   ensures err != nil ==> bsame(ns)
 //@   ensures err == nil ==> old(bhas(ns, credKey)) && old(len(bval(ns, credKey))) == 45
-//@   ensures err == nil ==> amt(result0) == old(mathint(be64(bval(ns, credKey), 0)))
+//@   ensures err == nil ==> amt(result0) == old(mathint(be64(bval(ns, credKey), 0))) && validAmt(result0)
 //@   ensures err == nil ==> bhas(ns, credKey) && bsameExcept(ns, credKey) && len(bval(ns, credKey)) == 121
 //@   ensures err == nil ==> bytesEq(bval(ns, credKey), 0, old(bval(ns, credKey)), 0, 8) && bytesEq(bval(ns, credKey), 9, old(bval(ns, credKey)), 9, 36)
 //@   ensures err == nil ==> mathint(sbyteAt(bval(ns, credKey), 8)) % 2 == 1 && mathdiv(mathint(sbyteAt(bval(ns, credKey), 8)), 2) == mathdiv(old(mathint(sbyteAt(bval(ns, credKey), 8))), 2)
@@ -579,13 +579,16 @@ func (s *UtxoStore) VerifWF() bool { return s != nil && s.bucketMeta != nil }
 //@   nopanic off
 //@   requires s != nil && s.bucketMeta != nil && tx != nil && rec != nil
 //@   modifies *
-//@   ignore Amount).Add deleteUnminedGameHistory putGameHistory
+//@   ignore Amount).Add deleteUnminedGameHistory putGameHistory createGameHistory
 //@   at "addrV = valueAddressRecord(addrRecord)" assert[C12] addrV == nil || readAddressHeight(addrV) == 0
+// the address record of an output is filed under the wallet, the address class and the address form of THAT output
+// (the record struct is reused from output to output: every field is set afresh)
+//@   at "addrK, err := keyAddressRecord(addrRecord)" assert[C12] addrRecord.walletId == rel.WalletId && mathint(addrRecord.addressClass) == ghost("psAddrClass", rel.PkScript) && (ghostb("psIsStaking", rel.PkScript) ==> addrRecord.encodeAddress == ghosts("psSecondEnc", rel.PkScript)) && (!ghostb("psIsStaking", rel.PkScript) ==> addrRecord.encodeAddress == ghosts("psStdEnc", rel.PkScript))
 
 // ---- C01 (rollback lemma): when a rolled-back transaction's debit is undone, the unspent marker re-created for the
 // credit it had spent carries the block of that credit (bytes 32..72 of the credit key), never anything else
 //@ func (*TxStore).Rollback
-//@   props C01 C09 C10 C12
+//@   props C01 C09 C10 C12 C18
 //@   nopanic off
 //@   requires s != nil && s.bucketMeta != nil && s.ksmgr != nil && s.utxoStore != nil && tx != nil
 //@   modifies *
@@ -599,6 +602,9 @@ func (s *UtxoStore) VerifWF() bool { return s != nil && s.bucketMeta != nil }
 //@   at "addrKey, err := keyAddressRecord(addrRec)"#1 assert[C12] (ghostb("psIsStaking", ps) ==> addrRec.encodeAddress == ghosts("psSecondEnc", ps)) && (!ghostb("psIsStaking", ps) ==> addrRec.encodeAddress == ghosts("psStdEnc", ps))
 //@   at "addrKey, err := keyAddressRecord(addrRec)"#2 assert[C12] (ghostb("psIsStaking", ps) ==> addrRec.encodeAddress == ghosts("psSecondEnc", ps)) && (!ghostb("psIsStaking", ps) ==> addrRec.encodeAddress == ghosts("psStdEnc", ps))
 // C10: the history record of a deposit is flipped back to not-withdrawn for staking AND binding deposits whose spend is undone
+// C18: no storage error is pending at the head of the input loop and of the block-record loop (a failed write ends Rollback)
+//@   loop#4 invariant[C18] err == nil
+//@   loop#6 invariant[C18] err == nil
 //@   ifat "err = readRawCreditKey(credKey, cred)" guard[C10] cred.flags.Class == ClassStakingUtxo || cred.flags.Class == ClassBindingUtxo
 //@   at "err = deleteRawAddressRecord(nsAddresses, addrKey)"#1 assert[C12] readAddressHeight(addrVal) == curHeight
 //@   at "err = deleteRawAddressRecord(nsAddresses, addrKey)"#2 assert[C12] readAddressHeight(addrVal) == curHeight
@@ -828,6 +834,7 @@ func (s *UtxoStore) VerifWF() bool { return s != nil && s.bucketMeta != nil }
 //@   requires bucket != nil
 //@   modifies bmap(bucket)
 //@   loop#1 invariant len(k) == 8 && fresh(k)
+//@   loop#1 invariant[C18] err == nil
 //@   loop#1 decreases mathint(cur)
 
 // ---------------------------------------------------------------------------------------------
@@ -900,3 +907,42 @@ func (s *UtxoStore) VerifWF() bool { return s != nil && s.bucketMeta != nil }
 //@   requires ns != nil && txHash != nil && block != nil
 //@   ensures len(k) == 72 && fresh(k) && bytesEq(k, 0, txHash, 0, 32) && be64(k, 32) == block.Height
 //@   ensures v != nil ==> bhas(ns, k) && strOf(v) == bval(ns, k)
+
+// ---- C01 (debit bookkeeping of a confirmed spend): the debit record and the spender reference written into the spent
+// credit are keyed by the REAL index of the input in the transaction (rel.Index), which is what Rollback looks up when
+// the block is disconnected -- not by the position of the input in the list of relevant inputs.
+//@ func (*TxStore).updateMinedBalance
+//@   props C01
+//@   nopanic off
+//@   requires s != nil && s.bucketMeta != nil && tx != nil && rec != nil && block != nil
+//@   modifies *
+//@   only putDebit FetchBucket spendCredit existsUnspent
+// reading back the key of a credit found through the unspent index cannot fail (76 bytes): one defensive return
+//@   dead returns 1
+//@   at "amt, err := spendCredit(nsCredits, credKey, &spender)" assert[C01] 0 <= rel.Index && rel.Index <= 4294967295 ==> mathint(spender.index) == rel.Index
+//@   at "if err := deleteRawUnspent(nsUnspent, unspentKey); err != nil {..." assert[C01] bhas(nsDebits, keyDebit(&rec.Hash, uint32(rel.Index), block))
+
+// ---- C10 (exactly the deposits of a transaction, with the right output index): one pass over the relevant outputs
+// appends a history entry exactly for a staking or binding output, and that entry carries the output's real index in
+// the transaction (rel.Index), its wallet, the transaction hash and the height
+//@ func createGameHistory
+//@   props C10 C19
+//@   requires rec != nil && (forall qi_ int :: 0 <= qi_ && qi_ < len(rec.RelevantTxOut) ==> rec.RelevantTxOut[qi_] != nil && rec.RelevantTxOut[qi_].PkScript != nil)
+//@   loop#1 invariant fresh(histories)
+//@   loop#1 step[C10] (len(histories) == old(len(histories)) + 1) == (ghostb("psIsStaking", rel.PkScript) || ghostb("psIsBinding", rel.PkScript))
+//@   loop#1 step[C10] len(histories) == old(len(histories)) || (len(histories) == old(len(histories)) + 1 && histories[len(histories)-1] != nil && mathint(histories[len(histories)-1].vout) == mathmod(rel.Index, 4294967296) && histories[len(histories)-1].walletId == rel.WalletId && histories[len(histories)-1].blockHeight == height && histories[len(histories)-1].isBinding == ghostb("psIsBinding", rel.PkScript) && bytesEq(histories[len(histories)-1].txhash, 0, rec.Hash, 0, 32))
+
+// ---- C18: in these loops a storage/decoding error assigned to the function's error variable ends the function; no
+// error is pending at a loop head (it could otherwise be overwritten by the next iteration's success)
+//@ func (*TxStore).ExistsTx
+//@   props C18
+//@   nopanic off
+//@   modifies *
+//@   only nothing
+//@   loop#1 invariant[C18] err == nil
+//@ func (*SyncStore).GetAllWalletStatus
+//@   props C18
+//@   nopanic off
+//@   modifies *
+//@   only nothing
+//@   loop#1 invariant[C18] err == nil
